@@ -188,7 +188,14 @@ namespace lang
             if (size_ >= capacity_)
                 raise("No capacity left!");
 
-            replace(data_[key], value_type(args...));
+            value_type value(args...);
+
+            for (auto i = static_cast<decltype(key)>(size_); i > key; --i)
+            {
+                replace(data_[i], std::forward<value_type>(data_[i - 1]));
+            }
+
+            replace(data_[key], std::move(value));
             ++size_;
         }
 
